@@ -108,7 +108,7 @@ func finalizerAllowed(ins []decl, ns, typ, id string) bool {
 func H_Access() {
 	maxIn, maxOut := 2, 1
 	if verif.Tier() == "thorough" {
-		maxIn, maxOut = 3, 2
+		maxIn, maxOut = 2, 2
 	}
 	ctx := context.Background()
 	ad, core, st, ins, outs := setup(maxIn, maxOut)
